@@ -34,7 +34,12 @@ import (
 
 func init() {
 	log.Root().SetHandler(log.DiscardHandler())
-	kernel.Register(&kernel.Rig{
+}
+
+// Describe returns the FilePV-level rig (the composite C04 check combines it
+// with the node-level cluster part, see rigs/c04rig).
+func Describe() *kernel.Rig {
+	return &kernel.Rig{
 		Property: "C04",
 		Name:     "privval",
 		Level:    "fault_enumeration",
@@ -58,7 +63,7 @@ func init() {
 		ThoroughRuns: 12000, ThoroughBudget: 15 * time.Minute,
 		RunsPerProcess: 400,
 		Run:            run,
-	})
+	}
 }
 
 // ---------------------------------------------------------------- requests
